@@ -8,6 +8,7 @@ import (
 	"fgverif/gen"
 	"fgverif/impl"
 	"fgverif/mon"
+	"fgverif/refinf"
 	"fgverif/synth"
 )
 
@@ -33,7 +34,8 @@ func (c04) Assumptions() []string {
 }
 
 type c04Sched struct {
-	chunk  string // whole, onebyte, random, split, dataeof
+	chunk  string // whole, onebyte, random, split, dataeof, zones, tiny
+	zones  []int  // byte offsets around which the source delivers one byte per read
 	split  int
 	bufio  int // 0 = none
 	viaRst bool
@@ -81,6 +83,39 @@ func c04Run(api *impl.API, r *gen.Rand, in []byte, s c04Sched, limit int) readRu
 		}}
 	case "dataeof":
 		src = &chunkReader{data: data, next: func() int { return r.Range(1, 5000) }, dataWithEOF: true}
+	case "tiny":
+		k := s.split
+		src = &chunkReader{data: data, next: func() int { return k }}
+	case "zones":
+		// everything up to 20 bytes before a zone centre in one read, then one
+		// byte per read until past it, and so on for each zone. fastgo's own
+		// roll-over positions drift to the right by the carried-over bytes of each
+		// earlier roll-over, so later zones are wider.
+		pos := 0
+		zi := 0
+		zs := s.zones
+		step := s.split
+		if step < 1 {
+			step = 1
+		}
+		src = &chunkReader{data: data, next: func() int {
+			for zi < len(zs) && pos > zs[zi]+40+120*zi {
+				zi++
+			}
+			n := 1 << 30
+			if zi < len(zs) {
+				if pos < zs[zi]-20 {
+					n = zs[zi] - 20 - pos
+				} else {
+					n = step
+				}
+			}
+			if n > len(data)-pos {
+				n = len(data) - pos
+			}
+			pos += n
+			return n
+		}}
 	}
 	if s.bufio > 0 {
 		src = bufioOf(src, s.bufio)
@@ -125,6 +160,18 @@ func (c04) Run(c *mon.Ctx, i int) {
 		s.Fixed(false, toks, true)
 		s.Stored(true, r.Bytes(r.Range(0, 9000)))
 		vs = &ValidStream{S: s.W.Bytes(), Plain: s.Plain, Desc: "synth-history-wrap"}
+	case 5:
+		// large word-salad text: single literals and short matches alternate, so
+		// packed literal+match table entries are everywhere, several history
+		// roll-overs per stream
+		n := r.Range(70000, 400000)
+		d := wordSalad(r, n)
+		v, err := encodeWith(impl.Stdlib, Setting{Wrapper: "flate", Level: r.Pick(1, 3, 6, 9)}, d, nil)
+		if err != nil {
+			panic(err)
+		}
+		vs = v
+		vs.Desc = "word-salad " + vs.Desc
 	case 2, 3:
 		vs = RandomValidStream(r, 3000) // small: every split point
 	default:
@@ -152,6 +199,28 @@ func (c04) Run(c *mon.Ctx, i int) {
 	if len(in) <= 600 {
 		for k := 1; k < len(in); k++ {
 			scheds = append(scheds, c04Sched{chunk: "split", split: k, bufio: c04Bufios[r.Intn(len(c04Bufios))], viaRst: r.Bool(), dst: pickDst(r)})
+		}
+	}
+	// history roll-overs: where in the compressed stream does the output cross
+	// 64 KiB and every further 32 KiB? One-byte delivery around those points
+	// makes every input boundary coincide with the window becoming full.
+	if len(vs.Plain) > 65536 && !truncated {
+		var marks []int
+		for m := 65536; m < len(vs.Plain); m += 32768 {
+			marks = append(marks, m)
+		}
+		res := refinf.Inflate(in, refinf.Options{Marks: marks, KeepBlocks: 1})
+		var zones []int
+		for _, b := range res.MarkBits {
+			zones = append(zones, int(b/8))
+		}
+		if len(zones) > 0 {
+			for k, bsz := range []int{0, 4096, 65536, 0, 64} {
+				scheds = append(scheds, c04Sched{chunk: "zones", zones: zones, split: []int{1, 2, 3, 5, 2}[k], bufio: bsz, viaRst: r.Bool(), dst: "64k"})
+			}
+			scheds = append(scheds, c04Sched{chunk: "tiny", split: 2, dst: "64k"}, c04Sched{chunk: "tiny", split: 3, bufio: 4096, dst: "random"})
+			c.Count("streams-with-rollover-zone-schedules", 1)
+			c.Count("rollover-zones", len(zones))
 		}
 	}
 	n := 14
@@ -221,4 +290,24 @@ func bufClass(n int) string {
 	default:
 		return ">=4096"
 	}
+}
+
+// wordSalad: random words over a random alphabet separated by punctuation.
+func wordSalad(r *gen.Rand, n int) []byte {
+	nw := r.Range(5, 200)
+	alpha := r.Range(2, 60)
+	words := make([][]byte, nw)
+	for i := range words {
+		w := make([]byte, r.Range(3, 8))
+		for j := range w {
+			w[j] = byte('a' + r.Intn(alpha))
+		}
+		words[i] = w
+	}
+	out := make([]byte, 0, n+16)
+	for len(out) < n {
+		out = append(out, words[r.Intn(nw)]...)
+		out = append(out, " .,;:!?-"[r.Intn(8)])
+	}
+	return out[:n]
 }
